@@ -551,6 +551,7 @@ func sdRunCase(o *common.Out, id string, c sdCase) {
 	shuts := map[int]*shut{}
 	begun, closeCalled, completed := false, false, false
 	expectClosed := map[int]bool{}
+	readerAtRead := map[int]bool{} // the reader of this connection was seen entering its read (pre-read plugin) after its last request
 	limbo := map[int]bool{}
 	sentAfterCompletion := map[int]bool{}
 	readBeforeShutdown := map[int]bool{}
@@ -736,7 +737,7 @@ func sdRunCase(o *common.Out, id string, c sdCase) {
 			if begun {
 				expectClosed[a.arg] = true
 			} else {
-				rig.waitPre(a.arg, n+1, sdLong)
+				readerAtRead[a.arg] = rig.waitPre(a.arg, n+1, sdLong)
 			}
 		case "send":
 			p := peers[a.arg]
@@ -759,9 +760,17 @@ func sdRunCase(o *common.Out, id string, c sdCase) {
 			h[3] = 1 << 4
 			binary.BigEndian.PutUint64(h[4:], uint64(q.id))
 			frame := refcodec.Build(h, []byte("Sd"), []byte("Mul"), nil, []byte(fmt.Sprintf(`{"Id":%d,"A":%d,"B":7}`, q.id, q.id)))
-			pc.conn.SetWriteDeadline(time.Now().Add(150 * time.Millisecond))
+			// a reader known to stand in its read takes the frame as soon as it is scheduled: wait generously.
+			// Otherwise (the reader went back to the top of its loop after Shutdown had begun: it should have
+			// left) a frame that is not taken within 150 ms counts as not read.
+			wd := 150 * time.Millisecond
+			if readerAtRead[q.conn] {
+				wd = sdLong
+			}
+			pc.conn.SetWriteDeadline(time.Now().Add(wd))
 			_, err := pc.conn.Write(frame)
 			pc.conn.SetWriteDeadline(time.Time{})
+			readerAtRead[q.conn] = false // it holds a request now (or is gone)
 			if err == nil {
 				if rig.g.waitHit(key(1), sdLong) && !begun {
 					readBeforeShutdown[a.arg] = true
@@ -777,7 +786,7 @@ func sdRunCase(o *common.Out, id string, c sdCase) {
 			case q.kind == "n" || q.kind == "h":
 				rig.g.waitHit(key(2), sdLong)
 				if !begun {
-					rig.waitPre(q.conn, n+1, sdLong)
+					readerAtRead[q.conn] = rig.waitPre(q.conn, n+1, sdLong)
 				}
 			case q.kind == "j":
 				rig.waitCountBelow(before, sdLong)
@@ -788,7 +797,7 @@ func sdRunCase(o *common.Out, id string, c sdCase) {
 			case q.ow: // rate-limited or unauthenticated one-way request: nothing is written
 				rig.waitCountBelow(before, sdLong)
 				if q.kind == "l" && !begun {
-					rig.waitPre(q.conn, n+1, sdLong)
+					readerAtRead[q.conn] = rig.waitPre(q.conn, n+1, sdLong)
 				}
 				if q.kind == "a" && !begun {
 					expectClosed[q.conn] = true
@@ -842,7 +851,7 @@ func sdRunCase(o *common.Out, id string, c sdCase) {
 			rig.g.release(key(5))
 			rig.waitCountBelow(before, sdLong)
 			if q.kind == "l" && !begun {
-				rig.waitPre(q.conn, n+1, sdLong)
+				readerAtRead[q.conn] = rig.waitPre(q.conn, n+1, sdLong)
 			}
 			if q.kind == "a" && !begun {
 				expectClosed[q.conn] = true
